@@ -5,7 +5,7 @@ V = os.path.dirname(os.path.dirname(os.path.abspath(__file__)))
 P = os.path.join(V, "lean", "Simfile", "Props")
 # property theorems that live in their own module: the msdparser contract (discharges the hypothesis of C01/C02/C04)
 # and the strict/lenient tokenizer theorems (C03's last clause)
-EXTRA = {"C01": ["MsdContract", "C01More", "C01Reach"], "C02": ["C02More", "C02Reach"], "C03": ["MsdLenient", "C03Entry", "C03Text"], "C04": ["C04More"], "C05": ["C05Concrete", "C05Data"], "C06": ["C06Data"], "C07": ["C07Any"], "C08": ["C08Any"], "C09": ["C09More"], "C10": ["C10More"], "C11": ["C11Wide", "C11Float"], "C12": ["C12Wide"], "C13": ["C13More", "C13Float"], "C14": ["C14More"], "C15": ["C15More"], "C16": ["C16More"], "C17": ["C17More"], "C18": ["C18More"], "C19": ["C19Tree"], "C20": ["C20Session", "C20Tree"]}
+EXTRA = {"C01": ["MsdContract", "C01More", "C01Reach"], "C02": ["C02More", "C02Reach"], "C03": ["MsdLenient", "C03Entry", "C03Text"], "C04": ["C04More"], "C05": ["C05Concrete", "C05Data"], "C06": ["C06Data"], "C07": ["C07Any"], "C08": ["C08Any"], "C09": ["C09More"], "C10": ["C10More"], "C11": ["C11Wide", "C11Float"], "C12": ["C12Wide"], "C13": ["C13More", "C13Float"], "C14": ["C14More"], "C15": ["C15More"], "C16": ["C16More"], "C17": ["C17More"], "C18": ["C18More", "C18Eq"], "C19": ["C19Tree"], "C20": ["C20Session", "C20Tree"]}
 
 
 def theorems_of(fn):
